@@ -38,6 +38,10 @@ func main() {
 	switch cmd {
 	case "merkle":
 		count, err = drive.MerkleReplay(*cases, *out, *seed, *inst)
+	case "ante":
+		count, err = drive.AnteReplay(*cases, *out, *seed)
+	case "handover":
+		count, err = drive.HandoverRandom(*out, *seed, *n, *depth, drive.HandoverOpts{Mode: *mode})
 	case "bridge":
 		count, err = drive.BridgeRandom(*out, *seed, *n, *depth, *mode, *network)
 	case "locking":
